@@ -205,11 +205,34 @@ def r6_proxy_rewrites_only_what_it_proxies(ctx):
         R.check(not bad, "C19.R6", "proxy:%s@%d-only-when-proxying" % ((m.name() or "").split("::")[-1], sorted(x.bb for x in muts).index(m.bb)), "the request is modified only on the path that also writes the JSON body", "ProxyGetRequest::call modifies the request (%s) on a path that passes it on unproxied: e.g. a POST with a non-JSON content type to a proxied path is given `application/json` and gets past the 415 gate" % short(m.name() or ""), where(m))
 
 
+def r7_gate_is_the_only_gate(ctx):
+    """(a) the 405/415/JSON decision is taken in one place: the refusal responses are built only by call_with_service (a
+    second, earlier content-type test in a wrapper answers 415 to a GET that must get 405, or skips the gate); (b) the
+    decision `this request is a WebSocket upgrade, not an RPC POST` is soketto's is_upgrade_request (checks the
+    `websocket` token): a home-grown predicate that is looser diverts JSON POSTs carrying some other Upgrade offer (h2c)
+    away from the RPC layer, so their answer depends on headers, not on the body."""
+    F, R = ctx.F, ctx.R
+    n = 0
+    for c in F.all_calls(r"transport::http::response::(unsupported_content_type|method_not_allowed)$"):
+        if c.body.crate != SERVER or is_test_body(c.body):
+            continue
+        n += 1
+        R.check(bool(re.search(CWS, c.body.path)), "C19.R7", "refusal-site:%s:%s" % (fkey(c.body), (c.name() or "").split("::")[-1]), "%s is answered by call_with_service's method/content-type match" % (c.name() or "").split("::")[-1], "%s answers %s outside call_with_service's method/content-type match: the order `method first (405), then content type (415)` no longer holds for this entry point" % (short(c.body.path), (c.name() or "").split("::")[-1]), where(c))
+    R.floor("C19.R7", n, 2, "405/415 refusal sites")
+    m = 0
+    for c in F.all_calls(r"is_upgrade_request$"):
+        if c.body.crate != SERVER or is_test_body(c.body):
+            continue
+        m += 1
+        R.check(bool(re.match(r"^soketto::handshake::http::is_upgrade_request$", c.name() or "")), "C19.R7", "upgrade-predicate:%s" % fkey(c.body), "the WebSocket-upgrade test is soketto's is_upgrade_request", "%s decides `WebSocket upgrade` with %s instead of soketto's is_upgrade_request (Connection: upgrade AND Upgrade: websocket): a POST that carries another upgrade offer is taken away from the RPC layer" % (short(c.body.path), short(c.name() or "")), where(c))
+    R.floor("C19.R7.upgrade", m, 1, "upgrade tests in the server")
+
+
 def r5_loop_exits(ctx):
     read_body_loop_exits(ctx.F, ctx.R, "C19.R5", ctx.tracer(follow_callers=False, follow_fields=False))
 
 
-RULES = [r1_gate, r2_chunk_independence, r3_is_json, r4_content_length_use, r5_loop_exits, r6_proxy_rewrites_only_what_it_proxies]
+RULES = [r1_gate, r2_chunk_independence, r3_is_json, r4_content_length_use, r5_loop_exits, r6_proxy_rewrites_only_what_it_proxies, r7_gate_is_the_only_gate]
 
 LEVEL_TEXT = (
     "Structural necessary conditions decided from the type-checked program: the method/content-type gate by dominance on "
